@@ -221,6 +221,9 @@ func Harness_C07_IndexValues() {
 	case 0:
 		row := messageRow{MessageSeq: zzsym.U64("seq"), MessageID: zzsym.U64("id"), PayloadHash: zzsym.U64("hash")}
 		zzsym.Assume(row.MessageID != 0)
+		// stored rows are normalised: a zero PayloadHash with no payload bytes is replaced by the hash of
+		// the empty payload (since the C07-F1 repair), so the raw value 0 is not a storable hash
+		zzsym.Assume(row.PayloadHash != 0)
 		v, err := encodeIdempotencyIndexValue(row)
 		zzsym.Assert(err == nil && len(v) == idempotencyIndexValueLen, "encodeIdempotencyIndexValue rejects a valid row")
 		hit, derr := decodeIdempotencyIndexValue(v)
